@@ -19,7 +19,7 @@ LEVEL_NOTE = ("Trusted: seam completeness for the dynamically linked binary; the
 RULE = ("case = one generated project; twin run records operations; plans = fail/torn on each scratch OPEN_W / WRITE / RENAME "
         "(single), pairs of them, and persistent class faults (every rename out of TMPDIR fails EXDEV; every create in TMPDIR "
         "fails; disk full from operation k). Non-trivial = the planned fault fired; distinct = (world, plan).")
-PROBES = ["real_missing_tmpdir", "exdev_rename", "no_scratch", "multi_fault", "disk_full_from", "error_surfaced_before_rename", "post_rename_write_failed"]
+PROBES = ["non_utf8_tmpdir", "real_missing_tmpdir", "exdev_rename", "no_scratch", "multi_fault", "disk_full_from", "error_surfaced_before_rename", "post_rename_write_failed"]
 ASSUMPTIONS = ["an injected failure is final for that call (no hidden retry by the seam)",
                "the follow-up --check runs fault-free on the tree the faulted run left"]
 DEADLINE = {"quick": 200, "thorough": 3000}
@@ -36,7 +36,7 @@ def gen(rng):
              ["k8", "k64", "k256"]][rng.randrange(6)]
     wm = world.gen_world_model(rng, nfiles=rng.randrange(1, 5), sizes=sizes, p_have=0.3, max_stmts=4, min_missing=1)
     knobs = {"threads": rng.randrange(1, 5), "config_arg": rng.choice(["rel", "abs"])}
-    knobs = scen.env_knobs(rng, knobs)
+    knobs = scen.env_knobs(rng, knobs, unusable_tmp=True)
     base = {"seed": rng.getrandbits(48) | 1, "perm": True, "faults": []}
     return wm, knobs, base
 
@@ -171,6 +171,16 @@ def run_case(rng, idx, tier, ctx):
     wm, knobs, base = gen(rng)
     twin = scen.exec_run(wm, False, base, knobs, ctx)
     tres = twin["res"]
+    if tres.mode == "exited" and tres.status != 0 and "\udcff" in knobs.get("tmpdir", ""):
+        # TMPDIR exists and is writable but its name is not valid UTF-8: Breadlog may refuse (non-zero exit, nothing
+        # updated) - but then nothing may be left behind either.  Reference for "would be updated": the same world with an
+        # ordinary TMPDIR.
+        k_ok = {k: v for k, v in knobs.items() if k not in ("tmpdir", "tmpdir_make")}
+        ref = scen.exec_run(wm, False, base, k_ok, ctx)
+        vs, _f = evaluate(wm, knobs, base, ctx, ref, label="non-utf8-tmpdir")
+        ctx.probes["non_utf8_tmpdir"] += 1
+        ctx.nontrivial.add("%d.nonutf8" % idx)
+        return vs
     if tres.mode != "exited" or tres.status != 0:
         raise core.HarnessError("fault-free twin failed: %s" % tres.ending())
     ops = tres.ops
